@@ -106,7 +106,7 @@ def run(chk, failed):
         "value-receiver methods with a single string result (StatusConstant.String, time.Time.Format) are total",
         "the data reaching executeTemplate is Tmpl.data_of of Eval.filter_view (Eval.eval_group ...): coordinator.go sends EvaluatorRequests without ShowAll and "
         "passes the reply to Notify unchanged (read, not proved); Eval.v itself is tied to the evaluator by C03/C04",
-        "C20_shipped_json_partial assumes finite completeness ratios (the evaluator divides only by positive counts; not derived from Eval.v)",
+        "C20_shipped_json is stated for groups of at most 2^24 partitions with windows of at most 2^24 slots (finite completeness ratios by F32Proofs)",
     ]
 
 
